@@ -57,12 +57,15 @@ def build_xlsx(cells, names, path):
         os.remove(path)
 
 
-def evaluate(model, target, pre=()):
+def evaluate(model, target, pre=(), late=None):
     L = xl.lib()
     try:
         ev = L.Evaluator(model)
         for p in pre:          # other cells evaluated first by the same evaluator
             ev.evaluate(p)
+        if late is not None:   # the probe is evaluated, a cell the workbook did not hold is set, the probe is evaluated again
+            ev.evaluate(target)
+            ev.set_cell_value(late[0], late[1])
         return xl.to_abs(ev.evaluate(target))
     except BaseException as e:      # noqa
         if isinstance(e, (KeyboardInterrupt, SystemExit)):
@@ -111,6 +114,11 @@ class Worker:
                                        'features': {'kind': 'resolve', 'rows': len(want), 'cols': len(want[0])}, 'clause': 'resolve_ranges'})
                 continue
             cells = case_cells(case)
+            late = None
+            if case.get('late'):
+                lk = tuple(case['late'])
+                late = [(addr(sh, c, r), v) for sh, c, r, k, v in cells if (sh, c, r) == lk][0]
+                cells = [x for x in cells if (x[0], x[1], x[2]) != lk]
             names = names_of(case)
             target = case['pname'] or addr(*case['probe'])
             paths = []
@@ -120,7 +128,7 @@ class Worker:
             for pname, build in paths:
                 try:
                     model = build()
-                    obs = evaluate(model, target, [addr(*p) for p in case.get('pre', [])])
+                    obs = evaluate(model, target, [addr(*p) for p in case.get('pre', [])], late)
                 except BaseException as e:      # noqa
                     if isinstance(e, (KeyboardInterrupt, SystemExit)):
                         raise
@@ -133,7 +141,8 @@ class Worker:
                                            'expected': exp, 'observed': obs})
                 if ok is False:
                     out['dis'].append({'case': {'kind': case['kind'], 'target': target, 'names': names,
-                                                'cells': [(addr(sh, c, r), v) for sh, c, r, k, v in cells][:40]},
+                                                'cells': [(addr(sh, c, r), v) for sh, c, r, k, v in cells][:40],
+                                                **({'then_set_and_evaluate_again': late} if late else {})},
                                        'exp': exp, 'obs': obs, 'features': probe_features(case, pname, exp, obs), 'clause': pname})
         return out
 
